@@ -148,6 +148,16 @@ CLAIMED = {
             '"solves" entry leaves none, advertised facts are proved lines, and the full re-check succeeds.',
             'Suggestions with open declared parameters are only counted. Known open finding F-C14-1 (eta-contracted goals and someI).',
             'DESIGN.md §3 C14'),
+    'C10': ('exploration',
+            'bounded exhaustive enumeration of expressions/formulas/lambda-terms on the real conversions, polynomial / member-set / finite-model oracles',
+            'Arithmetic normalisers on every expression with <=2 (thorough 3) operators grouped by own polynomial normal form '
+            '(canonicity and idempotence for naturals and reals), propositional normalisers on all formulas / all conjunction and '
+            'disjunction trees grouped by member sets, traversal combinators with rewr_conv/beta/eta on all lambda-terms of size <=5 '
+            '(6). Every returned proof term is an equation whose left side is the input, with hypotheses among the supplied '
+            'conditions, accepted by the kernel with the same sequent, agreeing with eval, and valid in finite models.',
+            'Trusted: own polynomial normal form, mc/ref.py, mc/holsem.py, kernel checker. Subtraction on naturals and division are '
+            'outside the generated expressions.',
+            'DESIGN.md §3 C10'),
 }
 
 PENDING_REASON = 'check not built yet in this round (planned, see DESIGN.md §3/§7); not claimed until its machinery exists'
